@@ -179,6 +179,10 @@ def excuses_scoped(norm, src):
             if stack and (stack[-1] in norm.binary or (norm.lang['id'] == 1801 and stack[-1] == b'ds:KeyValue')):
                 add('[mixed-content-in-binary-element]', stack[-1])
             stack.append(local(e[1]))
+            if norm.syncml and stack[-1] in (b'DevInf', b'MgmtTree') and e[1].rsplit(b'|', 1)[0] not in (b'syncml:devinf', b'syncml:dmddf1.2'):
+                # an embedded-document root outside its own namespace is not embedded, yet its character data is
+                # withheld as if it were
+                add('[syncml-embedded-root-in-foreign-namespace]', ANY)
             if norm.syncml and embedded_at is None and stack[-1] in (b'DevInf', b'MgmtTree'):
                 embedded_at = len(stack)
                 n_embedded += 1 if (len(stack) >= 2 and stack[-2] == b'Data') else 1000    # (not below <Data>: never announced)
